@@ -146,6 +146,11 @@ func lexstreamRecord(args []string) error {
 				lexers = append(lexers, lx{d, "stateful:" + c.ID, nodrop})
 			}
 		}
+		if kinds["generated"] {
+			if d, _ := generatedMaker(c); d != nil {
+				lexers = append(lexers, lx{d, "generated:" + c.ID, nodrop})
+			}
+		}
 		if kinds["simple"] {
 			if d, _ := simpleMaker(c); d != nil {
 				lexers = append(lexers, lx{d, "simple:" + c.ID, nodrop})
